@@ -163,7 +163,7 @@ type Updater struct {
 
 // GenSpec describes a batch of documents constructed from parameters instead of being
 // listed: document i (First <= i < First+N) has _id = Id(i), u = i, x = (Mul*i+Add) mod Mod
-// typed by Types (""=int64; "mixed" cycles int64, float64, string by i%3), y = i mod 7,
+// typed by Types (""=int64; "mixed" cycles int64, float64, string by i%3), y = i mod 7, n = {a: i mod 5, b: "k"},
 // and a pad string of Pad bytes.
 type GenSpec struct {
 	First  int    `json:"first"`
@@ -198,7 +198,7 @@ func (g *GenSpec) Docs(idOf func(int) string) []Doc {
 				x = fmt.Sprintf("s%04d", xv)
 			}
 		}
-		d := Doc{"_id": idOf(i), "u": int64(i), "x": x, "y": int64(i % 7)}
+		d := Doc{"_id": idOf(i), "u": int64(i), "x": x, "y": int64(i % 7), "n": map[string]interface{}{"a": int64(i % 5), "b": "k"}}
 		if g.Pad > 0 {
 			d["pad"] = pad
 		}
